@@ -16,4 +16,20 @@ def queries(tier, seed):
             qs.append(Q('xf/%s/%s' % (s, f), 'C02/xf.cpp', 'h_xf', defs=d, unwind=6, tier=t))
             if addr:
                 qs.append(Q('write/%s/%s' % (s, f), 'C02/xf.cpp', 'h_xf_write', defs=d, unwind=10, tier=t))
+    # nth_channel_view over memory-based and function-object sources, also under a further transformation and after const conversion
+    for s, addr in (('src_rgb8i', 1), ('src_rgb8p', 1), ('src_rgba8i', 1), ('src_rgb16i', 1), ('src_deref3', 0), ('src_virtual', 0)):
+        for f in ['xf_id'] + XFS:
+            t = 'quick' if f in ('xf_id', 'xf_fliplr', 'xf_rot90cw') and s != 'src_rgb16i' else 'thorough'
+            qs.append(Q('nth/%s/%s' % (s, f), 'C02/xf.cpp', 'h_nth', defs=dict(SRC=s, XF1=f, ADDRESSABLE=addr, NTH=1), unwind=10, tier=t))
+    # depth-2 compositions XF1 then XF2 (quick: a spread of pairs per source kind; thorough: all ordered pairs)
+    qpairs = [('xf_flipud', 'xf_flipud'), ('xf_rot90cw', 'xf_fliplr'), ('xf_subsampled', 'xf_flipud'), ('xf_transposed', 'xf_rot180'), ('xf_rot180', 'xf_flipud'), ('xf_subimage', 'xf_rot90ccw'), ('xf_fliplr', 'xf_subsampled')]
+    for s in ADDR + VAL:
+        addr = 1 if s in ADDR else 0
+        for f1 in XFS:
+            for f2 in XFS:
+                t = 'quick' if ((f1, f2) in qpairs and s in ('src_rgb8i', 'src_rgb8p', 'src_virtual', 'src_deref', 'src_gray8step')) else 'thorough'
+                d = dict(SRC=s, XF1=f1, XF2=f2, ADDRESSABLE=addr, VP_MAXDIM=3)
+                qs.append(Q('xf2/%s/%s+%s' % (s, f1, f2), 'C02/xf.cpp', 'h_xf', defs=d, unwind=6, tier=t))
+                if addr and (s in ('src_rgb8i', 'src_rgb8p') or tier == 'thorough') and 'gray1' not in s:
+                    qs.append(Q('write2/%s/%s+%s' % (s, f1, f2), 'C02/xf.cpp', 'h_xf_write', defs=d, unwind=10, tier=t))
     return qs
